@@ -383,6 +383,8 @@ def run_real(scn, choose):
                 if len(sched.chunks) == before:
                     break
                 sched.chunks[-1]["snap"] = snapshot()
+                sched.chunks[-1]["blocked_after"] = [t.name for t in sched.threads.values()
+                                                     if not t.done and t.op and t.op[0] in ("aend", "send-wait") and t.cond is not None and not t.cond()]
                 if status in ("quiescent", "exited", "stopped"):
                     break
         run.final_enabled = sorted(t.name for t in sched.enabled())
